@@ -205,6 +205,7 @@ type Engine struct {
 	pathCounter int
 	tagTypes    []types.Type
 	globLen     map[*ssa.Global]int64
+	Exclusive    bool // second pass: the receiver is owned exclusively (no interference at lock acquisition)
 	entryMeasure string
 	curArgTypes  []types.Type
 	entryLines  int
